@@ -36,7 +36,7 @@ REVERSIBLE = {
     "set_objective", "set_direction", "set_obj_coef", "add_cons", "add_var", "remove_cons_vars",
     "knock_out_gene", "set_functional", "knock_out_model_genes", "remove_genes", "rename_genes",
     "medium", "build_from_string", "optimize", "slim_optimize", "enter", "exit", "exit_exc",
-    "copy", "deepcopy", "pickle", "rxn_copy", "rxn_arith", "helper", "merge", "det_mutate", "repair", "config_bounds",
+    "copy", "deepcopy", "pickle", "rxn_copy", "rxn_arith", "helper", "merge", "det_mutate", "repair", "config_bounds", "solver",
 }
 LIFECYCLE = {"copy", "deepcopy", "pickle"}
 NO_CONTENT_CHANGE = {"optimize", "slim_optimize", "repair", "solver", "tolerance", "rxn_copy", "rxn_arith"}
@@ -78,6 +78,16 @@ class Env:
         src = op.get("src", "own")
         if src == "own":
             return self.actor.ref.rxns.get(op["r2"])
+        if src == "foreign":
+            bi = op.get("actor2", -1)
+            if not (0 <= bi < len(self.hist.actors)):
+                return None
+            b = self.hist.actors[bi].ref
+            y = b.rxns.get(op["r2"])
+            if y is None:
+                return None
+            self.foreign_mets = {m: b.mets[m] for m in y["mets"] if m in b.mets}
+            return y
         d = self.hist.detached.get(op["r2"])
         return d["ref"] if d else None
 
@@ -248,6 +258,10 @@ class Hist:
             b = self.actors[mr["actor"]] if mr["actor"] < len(self.actors) else None
             if b is None or b is a:
                 raise Skip("no foreign actor")
+            if not a.model.metabolites.has_id(mr["id"]):
+                # the model would adopt an object that another model still owns: outside the domain
+                raise Skip("foreign metabolite new to the model")
+            self.stats["probe:operand_from_another_live_model"] += 1
             return self.met(b, mr["id"])
         raise Skip(t)
 
@@ -552,6 +566,10 @@ class Hist:
                 sid = re.compile(r"^[A-Za-z_][A-Za-z0-9_]*$")
                 if not all(sid.match(i) for tbl in (ref.rxns, ref.mets, ref.genes, ref.groups) for i in tbl):
                     raise Skip("without id replacement only SBML SIds can be written")
+        # known finding KF-03: undo entries are bound to the objects of the solver that was current when they were recorded
+        if kind == "solver" and depth_now(a) > 0 and "solver_switch_in_context" in self.quarantine:
+            self.stats["quarantined:solver_switch_in_context"] += 1
+            raise Skip("quarantined")
         # rename_genes: "undefined if a value matches a different key" (comment in the code)
         if kind == "rename_genes":
             mp = op["map"]
@@ -685,6 +703,15 @@ class Hist:
     def _other(self, a, op):
         if op.get("src", "own") == "own":
             return self.rxn(a, op["r2"])
+        if op.get("src") == "foreign":
+            bi = op.get("actor2", -1)
+            if not (0 <= bi < len(self.actors)) or self.actors[bi] is a:
+                raise Skip("no foreign actor")
+            o = self.rxn(self.actors[bi], op["r2"])
+            if any(not a.model.metabolites.has_id(m.id) for m in o.metabolites):
+                raise Skip("foreign metabolite new to the model")
+            self.stats["probe:operand_from_another_live_model"] += 1
+            return o
         d = self.detached.get(op["r2"])
         if d is None:
             raise Skip("no detached object")
@@ -1480,6 +1507,12 @@ def gen_op(rng, H, sw):
 
     def metref(allow_new=True):
         t = rng.choice(["own", "own", "id", "copy", "new"] if allow_new else ["own", "id", "copy"])
+        if len(H.actors) > 1 and rng.random() < 0.25:
+            # a metabolite object that belongs to ANOTHER live model: documented to be copied, never adopted
+            bi = rng.choice([i for i in range(len(H.actors)) if i != ai])
+            bm = sorted(H.actors[bi].ref.mets)
+            if bm:
+                return {"t": "foreign", "actor": bi, "id": rng.choice(bm)}
         if t == "new" or not mids:
             return new_met()
         if t == "id" and inv:
@@ -1493,7 +1526,7 @@ def gen_op(rng, H, sw):
             if mr["id"] in seen:
                 continue
             seen.add(mr["id"])
-            out.append([mr, rng.choice(COEFS)])
+            out.append([mr, rng.choice(COEFS) if rng.random() > 0.08 else rng.choice([0, 0.0])])
         return out
 
     if k == "set_bounds":
@@ -1520,6 +1553,11 @@ def gen_op(rng, H, sw):
         dets = sorted(H.detached)
         if dets and rng.random() < 0.3:
             op.update(r2=rng.choice(dets), src="det")
+        elif len(H.actors) > 1 and rng.random() < 0.25:
+            bi = rng.choice([i for i in range(len(H.actors)) if i != ai])
+            br = sorted(H.actors[bi].ref.rxns)
+            if br:
+                op.update(r2=rng.choice(br), src="foreign", actor2=bi)
     elif k in ("set_rule", "set_gpr"):
         if rng.random() < 0.15:
             tree = None
